@@ -34,9 +34,18 @@ def setup(ctx):
 
 
 def fluid_obj(ctx):
+    """a Fluid as callers can have it: built by the real constructor (dataclass __init__ and __post_init__, if any) from one
+    set of values, after which the public fields are REASSIGNED (Fluid is not frozen; a parameter study re-uses one
+    object).  The facade must follow the object's current attributes, so anything captured at construction shows."""
     F = ctx.engine.cls(FLUID + "Fluid")
-    o = ObjV(F)
-    o.fields = {"temperature": T, "api_gravity": api, "gas_specific_gravity": gg, "solution_gor_initial": R, "salinity": S, "water_saturation_initial": tm.rconst(0)}
+    init = [tm.var(nm + "_at_construction") for nm in ("T", "api", "gg", "R", "S")]
+    outs = [o_ for o_ in ctx.engine.run_paths(F, init) if o_.kind == "return"]
+    if len(outs) != 1 or not isinstance(outs[0].value, ObjV):
+        raise sx.OutOfSubset("Fluid(...): expected one constructed object")
+    o = outs[0].value
+    o.fields.update({"temperature": T, "api_gravity": api, "gas_specific_gravity": gg, "solution_gor_initial": R, "salinity": S})
+    o.fields.setdefault("water_saturation_initial", tm.rconst(0))
+    o.writes = []
     return o
 
 
@@ -142,8 +151,13 @@ def build(ctx):
             if all(isinstance(w.get(k), (int, float)) for k in ("T", "api", "gg", "R")):
                 cand.append({k: float(w[k]) for k in ("T", "api", "gg", "R")} | {"S": float(w.get("S", 3.0)), "Tpc": float(w.get("Tpc", -72.0)), "Ppc": float(w.get("Ppc", 650.0)), "pj": float(w.get("pj", 2000.0))})
             cand += [dict(T=200.0, api=35.0, gg=0.8, R=650.0, S=3.0, Tpc=-72.0, Ppc=650.0, pj=2000.0), dict(T=150.0, api=30.0, gg=0.9, R=400.0, S=10.0, Tpc=-50.0, Ppc=640.0, pj=4000.0)]
-            for c in cand:
-                fl = Fl(c["T"], c["api"], c["gg"], c["R"], c["S"])
+            for c in cand + [dict(cc_, _reassigned=True) for cc_ in cand[-2:]]:
+                if c.get("_reassigned"):
+                    # one object re-used for a parameter study: built with other values, fields reassigned afterwards
+                    fl = Fl(c["T"] + 40.0, c["api"] - 5.0, c["gg"] + 0.1, c["R"] + 200.0, c["S"] + 2.0)
+                    fl.temperature, fl.api_gravity, fl.gas_specific_gravity, fl.solution_gor_initial, fl.salinity = c["T"], c["api"], c["gg"], c["R"], c["S"]
+                else:
+                    fl = Fl(c["T"], c["api"], c["gg"], c["R"], c["S"])
                 args = [c[k] for k in extra_names]
                 pbr = real(OIL + "pressure_bubblepoint_Standing")(c["T"], c["api"], c["gg"], c["R"])
                 for ps in (np.array([c["pj"], 500.0, 1500.0, 3000.0, 6000.0, pbr]), np.arange(500, 6001, 500), np.array([]), np.array([2500.0])):
@@ -194,8 +208,13 @@ def build(ctx):
         cands = [dict(T=200.0, api=35.0, gg=0.8, R=650.0), dict(T=200.0, api=35.0, gg=0.8, R=0.0), dict(T=120.0, api=20.0, gg=1.1, R=4.0), dict(T=350.0, api=55.0, gg=0.56, R=2500.0)]
         if all(isinstance(w.get(k_), (int, float)) for k_ in ("T", "api", "gg", "R")):
             cands.insert(0, {k_: float(w[k_]) for k_ in ("T", "api", "gg", "R")})
-        for c in cands:
-            got = Fl(c["T"], c["api"], c["gg"], c["R"]).pressure_bubblepoint()
+        for c in cands + [dict(cands[-1], _reassigned=True)]:
+            if c.get("_reassigned"):
+                fl_ = Fl(c["T"] - 50.0, c["api"] - 5.0, c["gg"] + 0.1, c["R"] - 300.0)
+                fl_.temperature, fl_.api_gravity, fl_.gas_specific_gravity, fl_.solution_gor_initial = c["T"], c["api"], c["gg"], c["R"]
+                got = fl_.pressure_bubblepoint()
+            else:
+                got = Fl(c["T"], c["api"], c["gg"], c["R"]).pressure_bubblepoint()
             want = real(OIL + "pressure_bubblepoint_Standing")(c["T"], c["api"], c["gg"], c["R"])
             if not close(got, want, 1e-12):
                 return {"reproduced": True, "input": c, "observed": float(got), "required": float(want)}
@@ -405,6 +424,48 @@ def build(ctx):
                 if any(o.kind == "return" for o in outs):
                     return be.Verdict(be.REFUTED, "SYMEX", witness={"fluid": bad}, detail=f"fluid type {bad!r} is accepted")
             raise e
+
+    def sutton_frame():
+        """the contaminant table handed to pseudocritical_point_Sutton is the caller's (and is reused for the next gas): the
+        call must leave every field of it unchanged, on every path"""
+        jj = tm.var("j", tm.I)
+        for dry in ("dry gas", "wet gas"):
+            holder = {}
+
+            def mk(dry=dry):
+                nh = one_path(ctx, GAS + "make_nonhydrocarbon_properties", [N2, H2S, CO2]).value
+                holder["nh"] = nh
+                snap = lambda a_: (a_.version, a_.get(jj)) if isinstance(a_, ArrV) else (None, list(a_) if isinstance(a_, (list, tuple)) else a_)
+                holder["snap"] = snap
+                holder["before"] = {fn_: snap(a_) for fn_, a_ in nh.fields.items()}
+                return [g, nh, dry], {}
+            outs = [o for o in ctx.engine.run_paths(ctx.engine.func(PS), mk) if o.kind != "infeasible"]
+            for o in outs:
+                nh = o.heap["args"][1]
+                for fn_, a_ in nh.fields.items():
+                    v0, e0 = holder["before"].get(fn_, (None, None))
+                    v1, e1 = holder["snap"](a_)
+                    same = (v1 == v0 and e1 is e0) if isinstance(a_, ArrV) else (e1 == e0 if not isinstance(e1, list) else (len(e1) == len(e0) and all(x is y or x == y for x, y in zip(e1, e0))))
+                    if not same:
+                        return be.Verdict(be.REFUTED, "FRAME", witness={"field": fn_, "fluid": dry}, detail=f"pseudocritical_point_Sutton modifies the caller's contaminant table: field {fn_!r} after the call is {e1} (was {e0}); the next call on the same table sees different properties")
+                if set(nh.fields) != set(holder["before"]):
+                    return be.Verdict(be.REFUTED, "FRAME", witness={}, detail="fields added to / removed from the caller's table")
+        return be.Verdict(be.PROVED, "FRAME", detail="no field of the argument is written on any path")
+
+    def sutton_frame_replay(w):
+        import numpy as np
+        gasm = __import__("bluebonnet.fluids.gas", fromlist=["x"])
+        nh = gasm.make_nonhydrocarbon_properties(0.03, 0.012, 0.018)
+        before = nh.copy()
+        first = gasm.pseudocritical_point_Sutton(0.7, nh, "dry gas")
+        changed = [n_ for n_ in nh.dtype.names if not np.array_equal(nh[n_], before[n_])]
+        second = gasm.pseudocritical_point_Sutton(0.7, nh, "dry gas")
+        if changed or not np.allclose(first, second, rtol=1e-13):
+            return {"reproduced": True, "input": {"N2": 0.03, "H2S": 0.012, "CO2": 0.018, "specific_gravity": 0.7, "fluid": "dry gas", "calls": 2}, "observed": {"fields changed": changed, "first call": [float(x) for x in first], "second call": [float(x) for x in second]},
+                    "required": "the table unchanged and the same result from the second call"}
+        return {"reproduced": False}
+
+    obs.append(Obligation("sutton.frame", "pseudocritical_point_Sutton leaves the caller's contaminant table unchanged (it is reused for the next gas; a modified table changes every later pseudocritical point)", sutton_frame, [PS, GAS + "make_nonhydrocarbon_properties"], "FRAME", sutton_frame_replay))
 
     obs.append(Obligation("sutton.rejects", "every fluid type other than 'dry gas' / 'wet gas' raises ValueError (symbolic string)", rejects, [PS], "SMT", sutton_replay))
 
